@@ -148,7 +148,7 @@ func zeroOutputTest(c *q.Ctx) {
 func reloadTotalRules(c *q.Ctx) {
 	const utxo = "bcs/ledger/xledger/state/utxo::"
 	if rt := c.Fn(utxo + "(*UtxoVM).ReloadTotal"); rt != nil {
-		c.StoreIs(rt, "UtxoVM.utxoTotal", "big.NewInt(0){SetBytes(i:Database.Get(p0.metaHandle.MetaTable,\"xtotal\")#0)}", 1, "what is re-installed is the persisted total (or zero when none was written yet)")
+		c.StoreIs(rt, "UtxoVM.utxoTotal", "big.NewInt(0){SetBytes(i:Database.Get(p0.metaHandle.MetaTable,\"xtotal\")#0)} OR phi{big.NewInt(0)|big.NewInt(0){SetBytes(i:Database.Get(p0.metaHandle.MetaTable,\"xtotal\")#0)}}", 1, "what is re-installed is the persisted total (or zero when none was written yet)")
 		// ... on every path except a real storage error: `not found` means nothing was ever committed, i.e. zero
 		c.Then(rt, q.ToCall("kvdb::Database.Get"), q.ToFieldStore("UtxoVM.utxoTotal"), q.ToAnyReturn(), []q.Cond{{Canon: "(def.NormalizedKVError(i:Database.Get(p0.metaHandle.MetaTable,\"xtotal\")#1) == g:ErrKVNotFound)", Sense: false}}, "the in-memory total is re-installed unless the table cannot be read")
 		c.WhoCalls("UtxoVM.ReloadTotal", map[string]string{"bcs/ledger/xledger/state::(*State).ClearCache": "cache invalidation after a failed operation"}, "the total is re-read only as part of invalidating the caches")
